@@ -22,7 +22,13 @@
 (* time step feeds one valuation (the initial state again in step 0) and rejects  *)
 (* iff FALSE; when the scenario stops the run is rejected iff the last verdict is *)
 (* falsy.  A requirement in the setup block of a sub-scenario started at run time *)
-(* has no generation check.                                                        *)
+(* has no generation check.  A `require` executed inside a compose block takes     *)
+(* effect in the step in which it is executed: if the compose block has taken `off` *)
+(* steps before (off `wait`s), the steps 1..off of the scenario are not observed   *)
+(* at all and the trace the requirement sees runs from step off+1 to the last step  *)
+(* of its scenario; `off` is a parameter of every case (0 for a requirement of the  *)
+(* scenario's definition or setup block), and Sat / Doomed / Mon only ever see that *)
+(* window `tr`.                                                                    *)
 (*                                                                                *)
 (* The module also prints every formula as Scenic text (Show(f, FALSE): fewest    *)
 (* parentheses under the grammar's precedence; Show(f, TRUE): every composite     *)
@@ -30,7 +36,8 @@
 (* must be the formula.                                                            *)
 (*                                                                                *)
 (* Input (JSON, env BATCH): [forms |-> <<formula,...>>, maxlen |-> n, extra |-> h,  *)
-(*   lemmas |-> 0/1]                                                              *)
+(*   lemmas |-> 0/1, offsets |-> <<0, ...>>, maxlenoff |-> m]                       *)
+(*   (windows of up to n steps for offset 0, up to m steps for the other offsets)   *)
 (*   formula = <<"atom","a"|"b">> | <<"not"|"next"|"always"|"eventually", f>>       *)
 (*           | <<"and"|"or"|"implies"|"until", f, g>>                               *)
 EXTENDS Integers, Sequences, FiniteSets, TLC, Json, IOUtils
@@ -41,6 +48,8 @@ NF == Len(Forms)
 MaxLen == Batch.maxlen
 Extra == Batch.extra          \* Doomed looks Depth(f) + Extra steps ahead
 Lemmas == Batch.lemmas = 1    \* also evaluate the expensive lemmas
+Offsets == {Batch.offsets[i] : i \in 1..Len(Batch.offsets)}   \* steps before the statement takes effect
+MaxLenAt(k) == IF k = 0 THEN MaxLen ELSE Batch.maxlenoff
 
 Atoms == {"a", "b"}
 Vals == [Atoms -> BOOLEAN]
@@ -68,6 +77,7 @@ NonTemporal(f) == CASE f[1] = "atom" -> TRUE
                     [] OTHER -> FALSE
 
 ASSUME \A q \in 1..NF : WellFormed(Forms[q])
+ASSUME 0 \in Offsets /\ \A k \in Offsets : k \in 0..8 /\ MaxLenAt(k) <= MaxLen
 
 \* ------------------------------------------------------------------ semantics
 (* Strong finite-trace semantics.  tr is a non-empty sequence of valuations,      *)
@@ -196,19 +206,28 @@ Show(f, full) ==
          IN [s |-> x.s \o <<"and">> \o y.s, lvl |-> 3, pre |-> FALSE, ro |-> y.ro, bad |-> x.bad \/ y.bad]
 
 \* ------------------------------------------------------------------ enumeration
-VARIABLES fid, tr, pc, rejImpl, rejMon, doomAt, demandAt
-vars == <<fid, tr, pc, rejImpl, rejMon, doomAt, demandAt>>
+(* off: number of steps of the scenario that pass before the requirement takes     *)
+(* effect; skipped: how many of them have passed; tr: the window observed so far.  *)
+VARIABLES fid, off, skipped, tr, pc, rejImpl, rejMon, doomAt, demandAt
+vars == <<fid, off, skipped, tr, pc, rejImpl, rejMon, doomAt, demandAt>>
 
 F == Forms[fid]
 
-Init == /\ fid \in 1..NF /\ tr = <<>> /\ pc = "start"
+Init == /\ fid \in 1..NF /\ off \in Offsets /\ skipped = 0 /\ tr = <<>> /\ pc = "start"
         /\ rejImpl = 0 /\ rejMon = 0 /\ doomAt = 0 /\ demandAt = 0
 
 First(old, cond, n) == IF old # 0 THEN old ELSE IF cond THEN n ELSE 0
 
-\* one more time step is observed (the first one is the initial state)
+\* a step of the scenario before the statement is executed: nothing is observed
+Wait ==
+  /\ pc = "start" /\ skipped < off
+  /\ skipped' = skipped + 1
+  /\ UNCHANGED <<fid, off, tr, pc, rejImpl, rejMon, doomAt, demandAt>>
+
+\* one more time step is observed (the first one is the step in which the statement
+\* takes effect: the initial state for off = 0)
 Observe(v) ==
-  /\ pc \in {"start", "run"} /\ Len(tr) < MaxLen
+  /\ pc \in {"start", "run"} /\ skipped = off /\ Len(tr) < MaxLenAt(off)
   /\ LET t == Append(tr, v)
          n == Len(tr) + 1
          mi == Mon(F, t, 1, TRUE)
@@ -224,13 +243,13 @@ Observe(v) ==
        /\ doomAt' = IF dm THEN (IF doomAt # 0 THEN doomAt ELSE n) ELSE 0
        /\ demandAt' = First(demandAt, DemandShape(F) /\ ~Sat(F[2], t, n), n)
   /\ pc' = "run"
-  /\ UNCHANGED fid
+  /\ UNCHANGED <<fid, off, skipped>>
 
 \* the scenario stops here: the verdict is due
 Stop == /\ pc = "run" /\ pc' = "end"
-        /\ UNCHANGED <<fid, tr, rejImpl, rejMon, doomAt, demandAt>>
+        /\ UNCHANGED <<fid, off, skipped, tr, rejImpl, rejMon, doomAt, demandAt>>
 
-Next == (\E v \in Vals : Observe(v)) \/ Stop
+Next == Wait \/ (\E v \in Vals : Observe(v)) \/ Stop
 Spec == Init /\ [][Next]_vars
 
 \* ------------------------------------------------------------------ outcomes
@@ -245,36 +264,44 @@ ImplOutcome == Outcome(rejImpl, Mon(F, tr, 1, TRUE))
 MonOutcome == Outcome(rejMon, Mon(F, tr, 1, FALSE))
 
 \* ------------------------------------------------------------------ lemmas (invariants)
-TypeOK == /\ pc \in {"start", "run", "end"} /\ Len(tr) <= MaxLen
+TypeOK == /\ pc \in {"start", "run", "end"} /\ Len(tr) <= MaxLenAt(off)
+          /\ off \in Offsets /\ skipped \in 0..off
           /\ rejImpl \in 0..MaxLen /\ rejMon \in 0..MaxLen /\ doomAt \in 0..MaxLen /\ demandAt \in 0..MaxLen
 
+\* nothing is observed, and nothing can be rejected, before the statement takes effect
+NothingBeforeEffect == skipped < off => (pc = "start" /\ tr = <<>> /\ rejImpl = 0 /\ rejMon = 0 /\ doomAt = 0)
+
+(* The lemmas below speak about (F, tr) only -- the offset never reaches Sat, Doomed or Mon -- *)
+(* so they are evaluated once per (F, tr): in the states with off = 0 (AtBase).                *)
+AtBase == off = 0
+
 \* the corrected monitor is exact: truthy iff satisfied, at every index
-MonitorExact == pc = "run" => \A i \in 1..L : Truthy(Mon(F, tr, i, FALSE)) = Sat(F, tr, i)
+MonitorExact == (pc = "run" /\ AtBase) => \A i \in 1..L : Truthy(Mon(F, tr, i, FALSE)) = Sat(F, tr, i)
 \* evaluated from the first step the as-implemented monitor agrees unless the trigger holds
-ImplExactUnlessTrigger == (pc = "run" /\ ~UntilAtOffset(F)) =>
+ImplExactUnlessTrigger == (pc = "run" /\ AtBase /\ ~UntilAtOffset(F)) =>
                              Mon(F, tr, 1, TRUE) = Mon(F, tr, 1, FALSE)
 \* an early rejection by the corrected monitor is licensed
 RejectSound == rejMon # 0 => (doomAt # 0 /\ doomAt <= rejMon)
 \* a doomed prefix is not satisfied as it stands
-DoomSound == (pc = "run" /\ doomAt # 0) => ~Sat(F, tr, 1)
+DoomSound == (pc = "run" /\ AtBase /\ doomAt # 0) => ~Sat(F, tr, 1)
 \* once doomed, always doomed (checked for real only with Lemmas)
 DoomMonotone == [][doomAt # 0 => doomAt' = doomAt]_vars
 \* the look-ahead of Doomed is long enough: one more step changes nothing (the shorter
 \* continuations are covered by doomAt itself)
-HorizonStable == (Lemmas /\ pc = "run" /\ doomAt # 0) =>
+HorizonStable == (Lemmas /\ pc = "run" /\ AtBase /\ doomAt # 0) =>
                     \A c \in [1..(Depth(F) + Extra + 1) -> Vals] : ~Sat(F, tr \o c, 1)
 \* definite TRUE from the corrected monitor means every continuation satisfies f
-TrueIsAssured == (Lemmas /\ pc = "run" /\ Mon(F, tr, 1, FALSE) = 4) => Assured(F, tr)
+TrueIsAssured == (Lemmas /\ pc = "run" /\ AtBase /\ Mon(F, tr, 1, FALSE) = 4) => Assured(F, tr)
 \* for `always g`, g non-temporal: doomed exactly from the first step where g is false,
 \* and the corrected monitor rejects in that very step
 DemandExact == DemandShape(F) => (doomAt = demandAt /\ rejMon = demandAt)
 \* non-temporal formulas only look at the current step
-CurrentStepOnly == (pc = "run" /\ NonTemporal(F)) => \A i \in 1..L : Sat(F, tr, i) = Sat(F, <<tr[i]>>, 1)
+CurrentStepOnly == (pc = "run" /\ AtBase /\ NonTemporal(F)) => \A i \in 1..L : Sat(F, tr, i) = Sat(F, <<tr[i]>>, 1)
 
 G == Forms[(fid % NF) + 1]      \* a second formula for the binary laws
 Taut == <<"or", <<"atom", "a">>, <<"not", <<"atom", "a">>>>>>
 Dualities ==
-  pc = "run" => \A i \in 1..L :
+  (pc = "run" /\ AtBase) => \A i \in 1..L :
      /\ Sat(<<"always", F>>, tr, i) = ~Sat(<<"eventually", <<"not", F>>>>, tr, i)
      /\ Sat(<<"eventually", F>>, tr, i) = Sat(<<"until", Taut, F>>, tr, i)
      /\ Sat(<<"implies", F, G>>, tr, i) = Sat(<<"or", <<"not", F>>, G>>, tr, i)
@@ -296,18 +323,19 @@ OutcomeVerdict == pc = "end" => ((MonOutcome.k = "acc") = Sat(F, tr, 1))
 \* ------------------------------------------------------------------ output
 \* once per formula: its Scenic texts and static facts
 EmitForm ==
-  pc = "start" =>
+  (pc = "start" /\ off = 0) =>
     LET m == Show(F, FALSE)  u == Show(F, TRUE) IN
     PrintT(ToJson([t |-> "form", fid |-> fid, min |-> m.s, full |-> u.s,
                    minbad |-> m.bad, fullbad |-> u.bad, depth |-> Depth(F),
                    uao |-> UntilAtOffset(F), nontemporal |-> NonTemporal(F),
                    demand |-> DemandShape(F)]))
 
-\* once per (formula, trace): the verdict, the licence for early rejection, the demand,
-\* and what the monitor as implemented does
+\* once per (formula, offset, window): the verdict, the licence for early rejection, the
+\* demand, and what the monitor as implemented does; steps (doom, demand, at) are counted
+\* in the window, i.e. step j of the window is step off + j of the scenario
 EmitCase ==
   pc = "end" =>
-    PrintT(ToJson([t |-> "case", fid |-> fid, tr |-> [i \in 1..L |-> Code(tr[i])],
+    PrintT(ToJson([t |-> "case", fid |-> fid, off |-> off, tr |-> [i \in 1..L |-> Code(tr[i])],
                    sat |-> Sat(F, tr, 1), doom |-> doomAt, demand |-> demandAt,
                    impl |-> <<ImplOutcome.k, ImplOutcome.at>>,
                    mon |-> <<MonOutcome.k, MonOutcome.at>>]))
